@@ -76,6 +76,21 @@ def normOp (toks : List String) : List String :=
   | ["applyblock", x] => ["applyblocks", x]
   | ["applyblockb", x, g] => ["applyblocksb", x, g]
   | ["ksdirect", _, n] => ["ksblocks", n]
+  -- the `*_inout` entry points of `BlockModeEncrypt/Decrypt` and `AsyncStreamCipher` are what the slice methods call
+  -- (cipher crate, provided methods): same functions
+  | ["blockio", x] => ["block", x]
+  | ["blockiob", x, g] => ["blockb", x, g]
+  | ["blocksio", x] => ["blocks", x]
+  | ["blocksiob", x, g] => ["blocksb", x, g]
+  | ["oneshotio", x] => ["oneshot", x]
+  | ["oneshotiob", x, g] => ["oneshotb", x, g]
+  -- `*_padded` (in place on a slice) and `*_padded_b2b` are `*_padded_inout`, like `*_padded_vec`
+  | ["padencs", x] => ["padenc", x]
+  | ["padencb", x] => ["padenc", x]
+  | ["paddecs", x] => ["paddec", x]
+  | ["paddecb", x] => ["paddec", x]
+  | ["enccf", _, _, x] => ["enc", x]       -- an object overwritten by `clone_from` is a copy of the source
+  | ["deccf", _, _, x] => ["dec", x]
   | ["encio", x] => ["enc", x]             -- `encrypt_inout` called directly = `encrypt`
   | ["decio", x] => ["dec", x]
   | ["enciob", x, g] => ["encb", x, g]     -- `InOutBuf::new(in, out)` + `encrypt_inout` = `encrypt_b2b`
